@@ -602,8 +602,8 @@ class XsdElement(XsdComponent, ParticleMixin,
                 context.validation_error(validation, self, err, elem)
             except (XMLSchemaParseError, XMLSchemaModelError) as err:
                 context.validation_error(validation, self, err.message, elem)
-            except OSError:
-                continue
+            except (OSError, ValueError):
+                continue  # ValueError: a malformed location hint
 
     def raw_decode(self, obj: ElementType, validation: str, context: ValidationContext) -> Any:
         """
@@ -1473,8 +1473,8 @@ class Xsd11Element(XsdElement):
                 context.validation_error(validation, self, err, elem)
             except (XMLSchemaParseError, XMLSchemaModelError) as err:
                 context.validation_error(validation, self, err.message, elem)
-            except OSError:
-                continue
+            except (OSError, ValueError):
+                continue  # ValueError: a malformed location hint
             else:
                 def stop_validation(e: ElementType, _xsd_element: XsdElement) -> bool:
                     if e is elem:
